@@ -349,6 +349,9 @@ def k_mappings(ctx: Ctx):
     rng = ctx.rng
     nmax_ex = ctx.n(6, 8)  # exhaustive occupations / bitstrings up to here
     sizes = list(range(0, ctx.n(9, 13)))
+    # registers crossing the 32- and 64-bit boundaries (the model works on unbounded naturals)
+    wide = [31, 32, 33, 63, 64, 65, 66]
+    sizes += [rng.choice(wide[:3]), rng.choice(wide[3:])] if ctx.quick() else wide
     reqs, expect = [], []
     for kind in KINDS:
         for n in sizes:
@@ -356,7 +359,7 @@ def k_mappings(ctx: Ctx):
                 continue
             secs = sectors_for(kind, n, rng, ctx)
             if n > nmax_ex:
-                secs = secs[:1] + rng.sample(secs[1:], min(4, len(secs) - 1))
+                secs = secs[:1] + rng.sample(secs[1:], min(4 if n < 20 else 2, len(secs) - 1))
             for nf, sz2 in secs:
                 ops = real_number_ops(kind, n, nf, sz2)
                 head = f"c13map {kind} {n} {opt(nf)} {opt(sz2)} | {enc_ops(ops)} | "
@@ -379,7 +382,7 @@ def k_mappings(ctx: Ctx):
                            f"trans={rows_of(m._trans_mat)}")
                 except Exception as e:  # noqa: BLE001
                     nq, hdr = None, "err attribute:" + exc_name(e)
-                if not isinstance(nq, int) or not (0 <= nq <= 16):
+                if not isinstance(nq, int) or not (0 <= nq <= 140):
                     reqs.append(head)  # the header comparison reports the disagreement; no queries are meaningful
                     expect.append((hdr, [], (kind, n, nf, sz2)))
                     continue
@@ -452,7 +455,9 @@ def k_small(ctx: Ctx):
     if ctx.quick():
         combos = rng.sample(combos, 14) + [(0, None), (0, 0), (2, 0), (3, 1)]
     for ne, sz2 in combos:
-        fn = safe_make(lambda: F.create_jw_electron_number_post_selection_filter_fn(ne, sz_of(sz2)))
+        # sz as annotated (float) or, for integral spin, as a plain int
+        fsz = sz2 // 2 if (sz2 is not None and sz2 % 2 == 0 and rng.random() < 0.5) else sz_of(sz2)
+        fn = safe_make(lambda: F.create_jw_electron_number_post_selection_filter_fn(ne, fsz))
         # structured wide registers (spin-orbital indices up to 95, crossing the 32- and 64-bit boundaries): exactly
         # n_e (or n_e ± 1) electrons, spin split equal / near the requested sector, so both verdicts occur
         wide = []
@@ -519,6 +524,16 @@ def k_small(ctx: Ctx):
             if r0 is None or r0[0] != t.coef or fock.indices_of(r0[1]) != list(t.indices):
                 ctx.witness("creation-term-sign", "FermionCreationTerm sign/indices differ from reordering a†…a†|vac>",
                             {"indices": list(idx)}, {"coef": str(t.coef), "indices": list(t.indices), "fock": r0})
+            # other argument forms: a tuple, the default coefficient, a general complex coefficient
+            c = rng.choice(COEFS)
+            try:
+                t2, t3 = FermionCreationTerm(tuple(idx), c), FermionCreationTerm(tuple(idx))
+                got = (complex(t2.coef), list(t2.indices), complex(t3.coef), list(t3.indices))
+            except Exception as e:  # noqa: BLE001
+                got = "err " + exc_name(e)
+            if r0 is not None and got != (complex(c * r0[0]), fock.indices_of(r0[1]), complex(r0[0]), fock.indices_of(r0[1])):
+                ctx.witness("creation-term-sign", "FermionCreationTerm(tuple, coef) differs from coef · sign of reordering a†…a†|vac>",
+                            {"indices": list(idx), "coef": str(c)}, {"got": repr(got), "fock": r0})
     resp = ctx.driver(reqs, entry=ENTRY)
     shown: set = set()
     for req, real, w, r in zip(reqs, reals, what, resp):
@@ -588,6 +603,227 @@ def operators_for(rng, n, kind, budget):
     return ops
 
 
+def compare_elements(ctx: Ctx, kind, inp, S, inv_s, q, terms, shown):
+    """columns of the qubit operator `q` (oracle term list) on every mapped state of the sector against the Fock-space
+    action of `terms`, restricted to the sector (a term that leaves the sector has no matrix element inside it).
+    Returns (ok, evaluations, leakage count)."""
+    sig = fock.sigma_up_then_down if kind == "scbk" else (lambda o: 1)
+    ev = leak = 0
+    for o in S:
+        col = fock.qubit_column(q, S[o])
+        want = {}
+        for c, t in terms:
+            r = fock.apply_term(t, o)
+            if r is not None:
+                want[r[1]] = want.get(r[1], 0) + c * r[0]
+        ev += 1
+        for o2 in set(want) | {inv_s[b] for b in col if b in inv_s}:
+            if o2 not in S:
+                continue  # the fermionic operator leaves the sector
+            a = col.get(S[o2], 0)
+            f = want.get(o2, 0) * sig(o) * sig(o2)
+            if abs(a - f) > 1e-9:
+                ctx.witness(f"matrix-element:{kind}", "matrix element of the mapped operator between mapped states differs from Fock space",
+                            {**inp, "operator": shown[:600], "occ_from": fock.indices_of(o), "occ_to": fock.indices_of(o2)},
+                            {"qubit": str(a), "fock_with_sign": str(f)})
+                return False, ev, leak
+        if kind == "scbk":
+            leak += sum(1 for b, a in col.items() if b not in inv_s and abs(a) > 1e-9)
+    return True, ev, leak
+
+
+def hc_terms(terms):
+    return [(complex(c).conjugate(), tuple((m, 1 - a) for m, a in reversed(t))) for c, t in terms]
+
+
+def majorana_terms(idx, coef):
+    """γ_{2j} = a_j + a†_j, γ_{2j+1} = −i a_j + i a†_j (OpenFermion's documented convention); product in the given order"""
+    out = [(complex(coef), ())]
+    for g in idx:
+        j, b = divmod(g, 2)
+        fac = [(-1j, (j, 0)), (1j, (j, 1))] if b else [(1, (j, 0)), (1, (j, 1))]
+        out = [(c * c2, t + (l,)) for c, t in out for c2, l in fac]
+    return out
+
+
+def random_interaction(rng, n, spin_conserving):
+    """a Hermitian InteractionOperator (OpenFermion's JW/BK code for it assumes Hermiticity) + its ladder-term list"""
+    import numpy as np
+
+    h = np.zeros((n, n), dtype=complex)
+    g = np.zeros((n, n, n, n), dtype=complex)
+    cf = [0.5, -0.25, 1, 0.125 + 0.25j, -0.5j, 0.75]
+    for _ in range(rng.randint(1, 4)):
+        p, q = rng.randrange(n), rng.randrange(n)
+        if spin_conserving and p % 2 != q % 2:
+            continue
+        c = rng.choice(cf)
+        h[p, q] += c
+        h[q, p] += complex(c).conjugate()
+    for _ in range(rng.randint(1, 4)):
+        p, q, r, s = (rng.randrange(n) for _ in range(4))
+        if spin_conserving and not fock.conserves_spin(((p, 1), (q, 1), (r, 0), (s, 0))):
+            continue
+        c = rng.choice(cf)
+        g[p, q, r, s] += c
+        g[s, r, q, p] += complex(c).conjugate()
+    const = rng.choice([0, 0.3, -1.5])
+    terms = [(const, ())] if const else []
+    for p in range(n):
+        for q in range(n):
+            if h[p, q]:
+                terms.append((complex(h[p, q]), ((p, 1), (q, 0))))
+    for p, q, r, s in itertools.product(range(n), repeat=4):
+        if g[p, q, r, s]:
+            terms.append((complex(g[p, q, r, s]), ((p, 1), (q, 1), (r, 0), (s, 0))))
+    return (const, h, g), terms
+
+
+def nonconserving_term(rng, n):
+    for _ in range(100):
+        t = tuple((rng.randrange(n), rng.randint(0, 1)) for _ in range(rng.randint(1, 4)))
+        if not (fock.conserves_number(t) and fock.conserves_spin(t)):
+            return t
+    return ((0, 1),)
+
+
+def operator_forms(ctx: Ctx, kind, n, inp, S, inv_s, om, om_alt, budget):
+    """argument forms and entry points of the operator mapper the in-tree callers rarely use: constant / zero operator,
+    the quri-parts FermionOperator wrapper and its hermitian_conjugated(), sums that contain terms violating the
+    symmetry (documented: dropped by SCBK – they have no matrix element inside a sector anyway), InteractionOperator,
+    MajoranaOperator, the same operator object mapped twice.  Returns (evaluations, ok)."""
+    from openfermion.ops import InteractionOperator, MajoranaOperator
+
+    rng = ctx.rng
+    ev = 0
+    cases = []  # (label, build() -> operator object, oracle terms)
+    cases.append(("constant", lambda: fermion_op([(0.75 - 0.5j, ())]), [(0.75 - 0.5j, ())]))
+    cases.append(("zero", lambda: fermion_op([]), []))
+    cases.append(("constant+number", lambda: fermion_op([(1, ()), (-2, ((0, 1), (0, 0)))]), [(1, ()), (-2, ((0, 1), (0, 0)))]))
+    for _ in range(budget):
+        terms = [(rng.choice(COEFS), random_term(rng, n, kind)) for _ in range(rng.randint(1, 3))]
+        mixed = terms + [(rng.choice(COEFS), nonconserving_term(rng, n)) for _ in range(rng.randint(1, 2))]
+        rng.shuffle(mixed)
+        cases.append(("with-symmetry-violating-terms", lambda mixed=mixed: fermion_op(mixed), mixed))
+
+        def wrapped(terms=terms, hc=False):
+            from quri_parts.openfermion.operator import FermionOperator as QPF
+
+            f = QPF()
+            for c, t in terms:
+                f += QPF(tuple(t), c)
+            return f.hermitian_conjugated() if hc else f
+
+        cases.append(("quri-parts FermionOperator", wrapped, terms))
+        cases.append(("quri-parts FermionOperator.hermitian_conjugated()", lambda terms=terms: wrapped(terms, True), hc_terms(terms)))
+        (const, h, g), iterms = random_interaction(rng, n, kind == "scbk" and rng.random() < 0.6)
+        cases.append(("InteractionOperator", lambda const=const, h=h, g=g: InteractionOperator(const, h, g), iterms))
+        mj, mterms = [], []
+        for _ in range(rng.randint(1, 3)):
+            idx = tuple(sorted(rng.sample(range(2 * n), min(2 * n, rng.choice([1, 2, 2, 3, 4, 4])))))
+            if kind == "scbk" and rng.random() < 0.5:  # a form that survives the symmetry gate: i γ_{2j} γ_{2j+1} = 2 n_j − 1 … products
+                js = rng.sample(range(n), min(n, rng.randint(1, 2)))
+                idx = tuple(sorted(x for j in js for x in (2 * j, 2 * j + 1)))
+            c = rng.choice(COEFS)
+            mj.append((idx, c))
+            mterms += majorana_terms(idx, c)
+
+        def maj(mj=mj):
+            mo = MajoranaOperator()
+            for idx, c in mj:
+                mo += MajoranaOperator(idx, c)
+            return mo
+
+        if len({i for i, _ in mj}) == len(mj):
+            cases.append(("MajoranaOperator", maj, mterms))
+    for label, build, terms in cases:
+        use = om if rng.random() < 0.5 else om_alt
+        shown = f"{label}: {terms!r}"
+        try:
+            obj = build()
+            first = use(obj)
+            q = qubit_terms(first)
+            again = use(obj)  # the same object a second time (a mapper that consumed / edited its argument would differ)
+        except Exception as e:  # noqa: BLE001
+            ctx.witness(f"operator-mapper:{kind}", f"operator mapper raises {exc_name(e)} on a {label} argument", {**inp, "operator": shown[:600]},
+                        str(e)[:200])
+            return ev, False
+        ctx.count("operator_form", f"{kind}:{label}")
+        if qubit_terms(again) != q:
+            ctx.witness(f"operator-mapper:{kind}", "mapping the same operator object twice gives two different qubit operators",
+                        {**inp, "operator": shown[:600]}, {"first": str(first)[:200], "second": str(again)[:200]})
+            return ev, False
+        ok, k, _ = compare_elements(ctx, kind, inp, S, inv_s, q, terms, shown)
+        ev += k
+        if not ok:
+            return ev, False
+    return ev, True
+
+
+def state_forms(ctx: Ctx, kind, n, nf, sz2, inp, S, sm, im, nq):
+    """the state mappers on other collection types / orders, on mappings built from other numeric argument types, and
+    again after everything else was called on the same mapping object.  Returns (evaluations, ok)."""
+    import numpy as np
+    from quri_parts.core.state import ComputationalBasisState
+
+    rng = ctx.rng
+    ev = 0
+    occs = list(S)
+    pick = occs if len(occs) <= 8 else rng.sample(occs, 8)
+    alt = []
+    try:  # same sector, other numeric types for the constructor arguments / the other public entry point
+        nf2 = None if nf is None else np.int64(nf)
+        szs = [sz_of(sz2)] if sz2 is None else [np.float64(sz2 / 2)] + ([int(sz2 // 2)] if sz2 % 2 == 0 else [])
+        for sz in szs:
+            alt.append((f"n_fermions={type(nf2).__name__}, sz={type(sz).__name__}", factory(kind)(n, nf2, sz).state_mapper))
+        if nf is None and sz2 is None:
+            alt.append(("positional n only", factory(kind)(n).state_mapper))
+            alt.append(("get_state_mapper(n)", factory(kind).get_state_mapper(n)))
+    except Exception as e:  # noqa: BLE001
+        ctx.witness(f"construct:{kind}", f"constructing the mapping with numpy / int typed sector arguments raises {exc_name(e)}", inp, str(e)[:200])
+        return ev, False
+    for o in pick:
+        idx = fock.indices_of(o)
+        sh = list(idx)
+        rng.shuffle(sh)
+        forms = [("tuple descending", tuple(reversed(idx))), ("set", set(idx)), ("frozenset", frozenset(idx)),
+                 ("shuffled list", sh), ("dict keys", dict.fromkeys(sh).keys()), ("numpy int array", np.array(sh, dtype=np.int64))]
+        for name, arg in forms:
+            ev += 1
+            keep = list(arg) if isinstance(arg, list) else None
+            try:
+                st = sm(arg)
+                got = (st.bits, st.qubit_count)
+            except Exception as e:  # noqa: BLE001
+                got = "err " + exc_name(e)
+            if got != (S[o], nq) or (keep is not None and keep != arg):
+                ctx.witness(f"state:{kind}", f"state mapper depends on the collection type / order of the occupied indices ({name})",
+                            {**inp, "occ": repr(arg)[:200]}, {"got": got, "expected_bits": S[o]})
+                return ev, False
+        for name, sm2 in alt:
+            ev += 1
+            try:
+                got = sm2(idx).bits
+            except Exception as e:  # noqa: BLE001
+                got = "err " + exc_name(e)
+            if got != S[o]:
+                ctx.witness(f"state:{kind}", f"state mapper of the same sector differs when the mapping is built with {name}",
+                            {**inp, "occ": idx}, {"got": got, "expected_bits": S[o]})
+                return ev, False
+        # history: the same closures after the operator mapper and both state mappers were used many times
+        ev += 1
+        try:
+            again = sm(idx).bits
+            back = sorted(im(ComputationalBasisState(nq, bits=S[o])))
+        except Exception as e:  # noqa: BLE001
+            again, back = "err " + exc_name(e), None
+        if again != S[o] or back != idx:
+            ctx.witness(f"state:{kind}", "state mapper / inverse mapper answer differently when called again on the same mapping object",
+                        {**inp, "occ": idx}, {"first": S[o], "again": again, "inverse": back})
+            return ev, False
+    return ev, True
+
+
 def validate_sector(ctx: Ctx, kind, n, nf, sz2, op_budget):
     """returns number of evaluations; registers witnesses"""
     from openfermion.ops import FermionOperator
@@ -645,36 +881,35 @@ def validate_sector(ctx: Ctx, kind, n, nf, sz2, op_budget):
                             {**inp, "mode": i, "occ": fock.indices_of(o)}, {"bits": b, "value": str(v), "off_diagonal": off[:3]})
                 return ev
     # matrix elements
-    sig = fock.sigma_up_then_down if kind == "scbk" else (lambda o: 1)
     inv_s = {b: o for o, b in S.items()}
     leak = 0
+    om_alt = None
+    try:  # the factory-level entry point to the same operator mapper
+        om_alt = factory(kind).get_of_operator_mapper(n, nf, sz_of(sz2))
+    except Exception as e:  # noqa: BLE001
+        ctx.witness(f"operator-mapper:{kind}", f"get_of_operator_mapper raises {exc_name(e)} where the constructor succeeds", inp, str(e)[:200])
+        return ev
     for terms in operators_for(rng, n, kind, op_budget):
+        use = om if rng.random() < 0.6 else om_alt
         try:
-            q = qubit_terms(om(fermion_op(terms)))
+            q = qubit_terms(use(fermion_op(terms)))
         except Exception as e:  # noqa: BLE001
             ctx.witness(f"operator-mapper:{kind}", f"operator mapper raises {exc_name(e)}", {**inp, "operator": repr(terms)})
             return ev
-        for o in S:
-            col = fock.qubit_column(q, S[o])
-            want = {}
-            for c, t in terms:
-                r = fock.apply_term(t, o)
-                if r is not None:
-                    want[r[1]] = want.get(r[1], 0) + c * r[0]
-            ev += 1
-            for o2 in set(want) | {inv_s[b] for b in col if b in inv_s}:
-                if o2 not in S:
-                    # the fermionic operator leaves the sector: only possible for JW/BK on full Fock space (never: S is total there)
-                    continue
-                a = col.get(S[o2], 0)
-                f = want.get(o2, 0) * sig(o) * sig(o2)
-                if abs(a - f) > 1e-9:
-                    ctx.witness(f"matrix-element:{kind}", "matrix element of the mapped operator between mapped states differs from Fock space",
-                                {**inp, "operator": repr(terms), "occ_from": fock.indices_of(o), "occ_to": fock.indices_of(o2)},
-                                {"qubit": str(a), "fock_with_sign": str(f)})
-                    return ev
-            if kind == "scbk":
-                leak += sum(1 for b, a in col.items() if b not in inv_s and abs(a) > 1e-9)
+        ok, k, lk = compare_elements(ctx, kind, inp, S, inv_s, q, terms, repr(terms))
+        ev += k
+        leak += lk
+        if not ok:
+            return ev
+    # other operator argument forms / entry points / call histories
+    k, ok = operator_forms(ctx, kind, n, inp, S, inv_s, om, om_alt, max(2, op_budget // 3))
+    ev += k
+    if not ok:
+        return ev
+    k, ok = state_forms(ctx, kind, n, nf, sz2, inp, S, sm, im, nq)
+    ev += k
+    if not ok:
+        return ev
     if leak:
         ctx.count("leakage_outside_sector_images", kind, leak)
     if kind == "scbk" and n == 4 and (nf, sz2) == (2, 0) and len(ctx.samples) < 6:
@@ -742,6 +977,512 @@ def validate(ctx: Ctx, scale: int):
     ctx.extra["oracle_validation"] = {"evaluations": n_ev, "max_spin_orbitals": nmax, "seconds": round(time.time() - t0, 2)}
     ctx.evaluations += n_ev
     ctx.search_budget_s += round(time.time() - t0, 2)
+
+
+# ---------------------------------------------------------------------------
+# K4: the rest of the public surface of the anchored files, judged by direct restatements (oracle only)
+# ---------------------------------------------------------------------------
+def _out(fn):
+    try:
+        return ("ok", fn())
+    except Exception as e:  # noqa: BLE001
+        return ("err", exc_name(e))
+
+
+def k_gf2_api(ctx: Ctx):
+    """BinaryArray / BinaryMatrix operations the mappings do not reach (slices, item assignment, ==, vstack, the
+    TypeError branches, operand aliasing) against plain Python lists over GF(2)."""
+    try:
+        from quri_parts.core.utils import binary_field as bf
+
+        BinaryArray, BinaryMatrix, hstack, inverse = bf.BinaryArray, bf.BinaryMatrix, bf.hstack, bf.inverse
+    except Exception as e:  # noqa: BLE001
+        ctx.disagree("gf2-api:import", {}, "err " + exc_name(e), "BinaryArray, BinaryMatrix, hstack, inverse exist")
+        return
+    vstack = getattr(bf, "vstack", None)
+    rng = ctx.rng
+    n_ev = 0
+
+    def W(what, inp, detail):
+        ctx.witness("gf2-api:" + what.split(" ")[0], "binary_field: " + what, inp, detail)
+
+    def bits(x):
+        return [int(v) for v in x]
+
+    for _ in range(ctx.n(150, 2000)):
+        la = rng.choice([0, 1, 2, 3, 5, 8, 9, 33, 65, 70]) if rng.random() < 0.3 else rng.randint(0, 9)
+        a = [rng.choice([0, 1, True, False]) for _ in range(la)]
+        b = [rng.randint(0, 1) for _ in range(la)]
+        ai, bi = bits(a), bits(b)
+        A, B = BinaryArray(a), BinaryArray(iter(b))
+        n_ev += 1
+        # element / iteration / length / binary
+        r = _out(lambda: (len(A), list(A), [A[i] for i in range(la)], A.binary))
+        if r != ("ok", (la, ai, ai, sum(v << k for k, v in enumerate(ai)))):
+            W("elements len/iter/getitem/binary differ from the constructor argument", {"a": ai}, r)
+        # slices
+        sl = slice(rng.choice([None, 0, 1, 2, -1, -3]), rng.choice([None, 0, 3, la, -1]), rng.choice([None, 1, 2, -1, 3]))
+        r = _out(lambda: (lambda x: (type(x).__name__, len(x), list(x)))(A[sl]))
+        if r != ("ok", ("BinaryArray", len(ai[sl]), ai[sl])):
+            W("slice A[slice] is not the BinaryArray of the sliced elements", {"a": ai, "slice": repr(sl)}, r)
+        # item assignment (own object only)
+        if la:
+            i, v = rng.randrange(la), rng.randint(0, 1)
+            C = BinaryArray(a)
+            exp = list(ai)
+            exp[i] = v
+            r = _out(lambda: (C.__setitem__(i, v), list(C), list(A), len(C))[1:])
+            if r != ("ok", (exp, ai, la)):
+                W("setitem A[i] = v does not set exactly that element", {"a": ai, "i": i, "v": v}, r)
+        # equality: same bits and same length
+        flip = list(ai)
+        if la:
+            flip[rng.randrange(la)] ^= 1
+        r = _out(lambda: (A == BinaryArray(ai), A != BinaryArray(ai), A == BinaryArray(ai + [0]), A == ai, A == tuple(ai),
+                          (A == BinaryArray(flip)) if la else False, A == BinaryArray(ai + [1])))
+        if r != ("ok", (True, False, False, False, False, False, False)):
+            W("eq BinaryArray equality is not (same elements, same length, same type)", {"a": ai}, r)
+        # operands are not modified by + * @ ; += *= work in place
+        r = _out(lambda: (list(A + B), list(A * B), A @ B, list(A), list(B)))
+        if r != ("ok", ([x ^ y for x, y in zip(ai, bi)], [x & y for x, y in zip(ai, bi)], sum(x & y for x, y in zip(ai, bi)) % 2, ai, bi)):
+            W("operands + * @ give a wrong result or modify an operand", {"a": ai, "b": bi}, r)
+
+        def inplace():
+            C = BinaryArray(ai)
+            D = C
+            D += B
+            s1 = (D is C, list(C), list(B))
+            D *= B
+            return s1, (D is C, list(C), list(B))
+
+        x1 = [x ^ y for x, y in zip(ai, bi)]
+        if (r := _out(inplace)) != ("ok", ((True, x1, bi), (True, [x & y for x, y in zip(x1, bi)], bi))):
+            W("inplace += / *= do not update the left operand in place (or touch the right one)", {"a": ai, "b": bi}, r)
+        # documented TypeError branches
+        bad = rng.choice([0.5, "1", None, 1.0, [1]])
+        pos = rng.randint(0, la)
+        if (r := _out(lambda: BinaryArray(ai[:pos] + [bad] + ai[pos:])))[1] != "TypeError":
+            W("TypeError-ctor a value that is neither bool nor int is accepted", {"values": repr(ai[:pos] + [bad] + ai[pos:])}, repr(r)[:100])
+        other = rng.choice([ai, tuple(ai), 1, None, BinaryMatrix([ai])])
+        for name, f in (("+", lambda: A + other), ("*", lambda: A * other), ("@", lambda: A @ other)):
+            if (r := _out(f))[1] != "TypeError":
+                W(f"TypeError-operand BinaryArray {name} <{type(other).__name__}> does not raise TypeError", {"a": ai, "other": repr(other)[:80]}, repr(r)[:100])
+        ctx.count("gf2_api", "array")
+    for _ in range(ctx.n(150, 2000)):
+        r_, w = rng.randint(1, 5), rng.randint(1, 6)
+        rows = rand_rows(rng, r_, w)
+        M = BinaryMatrix(rows)
+        n_ev += 1
+        i, j = rng.randrange(r_), rng.randrange(w)
+        r = _out(lambda: (len(M), [list(x) for x in M], [list(M[k]) for k in range(r_)], M[i, j]))
+        if r != ("ok", (r_, rows, rows, rows[i][j])):
+            W("matrix-elements len/iter/getitem differ from the constructor argument", {"rows": rows, "i": i, "j": j}, r)
+        # item assignment, both index forms
+        v = rng.randint(0, 1)
+        exp = [list(x) for x in rows]
+        exp[i][j] = v
+        M2 = BinaryMatrix(rows)
+        if (r := _out(lambda: (M2.__setitem__((i, j), v), [list(x) for x in M2])[1])) != ("ok", exp):
+            W("matrix-setitem M[i, j] = v does not set exactly that element", {"rows": rows, "i": i, "j": j, "v": v}, r)
+        newrow = [rng.randint(0, 1) for _ in range(w)]
+        exp = [list(x) for x in rows]
+        exp[i] = newrow
+        M3 = BinaryMatrix(rows)
+        if (r := _out(lambda: (M3.__setitem__(i, BinaryArray(newrow)), [list(x) for x in M3], [list(x) for x in M])[1:])) != ("ok", (exp, rows)):
+            W("matrix-setitem M[i] = row does not replace exactly that row", {"rows": rows, "i": i, "row": newrow}, r)
+        if (r := _out(lambda: M3.__setitem__(i, newrow)))[1] != "ValueError":
+            W("matrix-setitem-type M[i] = <list> does not raise ValueError", {"rows": rows}, repr(r)[:100])
+        if (r := _out(lambda: M3.__setitem__((i, j), BinaryArray([1]))))[1] != "ValueError":
+            W("matrix-setitem-type M[i, j] = <BinaryArray> does not raise ValueError", {"rows": rows}, repr(r)[:100])
+        # equality
+        diff = [list(x) for x in rows]
+        diff[i][j] ^= 1
+        r = _out(lambda: (M == BinaryMatrix(rows), M == BinaryMatrix(diff), M == BinaryMatrix(rows + [rows[0]]), M == rows,
+                          M == BinaryMatrix(rows[:-1])))
+        if r != ("ok", (True, False, False, False, False)):
+            W("matrix-eq BinaryMatrix equality is not (same rows, same type)", {"rows": rows}, r)
+        # TypeError branch of @
+        other = rng.choice([rows, 3, None, tuple(rows[0])])
+        if (r := _out(lambda: M @ other))[1] != "TypeError":
+            W(f"TypeError-operand BinaryMatrix @ <{type(other).__name__}> does not raise TypeError", {"rows": rows}, repr(r)[:100])
+        # vstack
+        if vstack is not None:
+            rows2 = rand_rows(rng, rng.randint(1, 4), w)
+            if (r := _out(lambda: [list(x) for x in vstack(M, BinaryMatrix(rows2))])) != ("ok", rows + rows2):
+                W("vstack vstack(a, b) is not a's rows followed by b's rows", {"a": rows, "b": rows2}, r)
+            rows3 = rand_rows(rng, rng.randint(1, 4), w + rng.randint(1, 2))
+            if (r := _out(lambda: [list(x) for x in vstack(M, BinaryMatrix(rows3))]))[0] != "err":
+                W("vstack-width vstack of matrices of different width returns a matrix", {"a": rows, "b": rows3}, repr(r)[:200])
+        # transpose / hstack / inverse leave their arguments alone and are repeatable
+        sq = rand_invertible(rng, rng.randint(1, 6)) if rng.random() < 0.7 else rand_rows(rng, w, w)
+        Q = BinaryMatrix(sq)
+        r1 = _out(lambda: [list(x) for x in inverse(Q)])
+        r2 = _out(lambda: ([list(x) for x in Q.transpose()], [list(x) for x in hstack(Q, Q)], [list(x) for x in Q @ Q]) and None)
+        r3 = _out(lambda: [list(x) for x in inverse(Q)])
+        if [list(x) for x in Q] != sq or r1 != r3:
+            W("aliasing inverse / transpose / hstack / @ modify their argument (or inverse is not repeatable)", {"rows": sq},
+              {"after": [list(x) for x in Q], "first": r1, "second": r3})
+        ctx.count("gf2_api", "matrix")
+    if vstack is None:
+        ctx.disagree("gf2-api:vstack", {}, "missing", "binary_field.vstack exists")
+    ctx.evaluations += n_ev
+    ctx.extra["gf2_api_cases"] = n_ev
+
+
+def k_sizes(ctx: Ctx):
+    """qubit-count bookkeeping: n_qubits_required / n_spin_orbitals (factory statics, through the instance and through the
+    class, and the module-level functions of chem.transforms) against JW, BK: n ↔ n; SCBK: n ↔ n − 2, and against the
+    n_qubits / qubit_count of the mapping objects and of the states they return."""
+    import quri_parts.chem.transforms as CT
+
+    spec = {"jw": 0, "bk": 0, "scbk": -2}
+    fnames = {"jw": ("jordan_wigner_n_qubits_required", "jordan_wigner_n_spin_orbitals"),
+              "bk": ("bravyi_kitaev_n_qubits_required", "bravyi_kitaev_n_spin_orbitals"),
+              "scbk": ("symmetry_conserving_bravyi_kitaev_n_qubits_required", "symmetry_conserving_bravyi_kitaev_n_spin_orbitals")}
+    bases = {"jw": "JordanWignerMapperFactory", "bk": "BravyiKitaevMapperFactory", "scbk": "SymmetryConservingBravyiKitaevMapperFactory"}
+    n_ev = 0
+    for kind in KINDS:
+        fac = factory(kind)
+        srcs = [("factory instance", fac), ("factory class", type(fac)), ("chem base class", getattr(CT, bases[kind], None))]
+        for n in list(range(2 if kind == "scbk" else 0, 20)) + [32, 33, 64, 65, 128, 1000]:
+            nq = n + spec[kind]
+            for name, src in srcs:
+                n_ev += 1
+                r = _out(lambda: (src.n_qubits_required(n), src.n_spin_orbitals(nq)))
+                if r != ("ok", (nq, n)):
+                    ctx.witness(f"n-qubits:{kind}", f"n_qubits_required / n_spin_orbitals of the {name} differ from n ↔ n{spec[kind] or ''}",
+                                {"kind": kind, "n_spin_orbitals": n, "n_qubits": nq}, repr(r))
+            r = _out(lambda: (getattr(CT, fnames[kind][0])(n), getattr(CT, fnames[kind][1])(nq)))
+            if r != ("ok", (nq, n)):
+                ctx.witness(f"n-qubits:{kind}", "module-level n_qubits_required / n_spin_orbitals functions differ from the specification",
+                            {"kind": kind, "n_spin_orbitals": n, "n_qubits": nq}, repr(r))
+            if n <= 12 and (kind != "scbk" or (n % 2 == 0 and n >= 4)):
+                nf, sz2 = (None, None) if kind != "scbk" else (2, 0)
+                occ = [] if kind != "scbk" else [0, 1]
+                r = _out(lambda: (lambda m: (m.n_qubits, m.n_spin_orbitals, m.state_mapper(occ).qubit_count, m.n_fermions, m.sz))(fac(n, nf, sz_of(sz2))))
+                if r != ("ok", (nq, n, nq, nf, sz_of(sz2))):
+                    ctx.witness(f"n-qubits:{kind}", "mapping object: n_qubits / n_spin_orbitals / qubit_count of a mapped state / n_fermions / sz "
+                                "differ from the constructor arguments", {"kind": kind, "n_spin_orbitals": n, "n_fermions": nf, "two_sz": sz2}, repr(r))
+    ctx.evaluations += n_ev
+    ctx.count("sizes", "cases", n_ev)
+
+
+def k_operator_helpers(ctx: Ctx):
+    """has_particle_number_symmetry (the SCBK per-term gate), the FermionOperator wrapper and operator_from_openfermion_op,
+    called directly with inputs the mappers never pass."""
+    import numpy as np
+    from openfermion.ops import FermionOperator as OFF
+    from openfermion.ops import QubitOperator
+
+    import quri_parts.openfermion.operator as O
+
+    rng = ctx.rng
+    n_ev = 0
+    for _ in range(ctx.n(300, 4000)):
+        n = rng.randint(1, 7)
+        terms = {}
+        for _ in range(rng.choice([0, 1, 1, 2, 3, 4])):
+            x = rng.random()
+            if x < 0.45:
+                t = random_term(rng, n, "scbk")
+            elif x < 0.7:  # number conserving, spin violating (needs both spins)
+                L = rng.randint(1, 2)
+                t = [(rng.randrange(n), 1) for _ in range(L)] + [(rng.randrange(n), 0) for _ in range(L)]
+                rng.shuffle(t)
+                t = tuple(t)
+            else:
+                t = nonconserving_term(rng, n)
+            terms[t] = rng.choice(COEFS)
+        if rng.random() < 0.2:
+            terms[()] = 0.5
+        tl = [(c, t) for t, c in terms.items()]
+        op = fermion_op(tl)
+        keys = list(op.terms)
+        num = all(fock.conserves_number(t) for t in keys)
+        both = all(fock.conserves_number(t) and fock.conserves_spin(t) for t in keys)
+        n_ev += 1
+        r = _out(lambda: (O.has_particle_number_symmetry(op), O.has_particle_number_symmetry(op, check_spin_symmetry=False),
+                          O.has_particle_number_symmetry(op, check_spin_symmetry=True), O.has_particle_number_symmetry(op, True)))
+        ctx.count("symmetry_gate", f"number={num},spin={both}")
+        if r != ("ok", (num, num, both, both)):
+            ctx.witness("symmetry-gate", "has_particle_number_symmetry differs from {every term conserves N (and N_up, N_down when asked)}",
+                        {"operator": repr(tl)[:600]}, {"got": repr(r), "number": num, "number_and_spin": both})
+        # FermionOperator wrapper: hermitian conjugate and conversion keep type and meaning
+        if n <= 4 and tl:
+            def wrap():
+                f = O.FermionOperator()
+                for c, t in tl:
+                    f += O.FermionOperator(tuple(t), c)
+                hc = f.hermitian_conjugated()
+                conv = O.fermion_operator_from_openfermion_op(op)
+                return (type(hc) is O.FermionOperator, type(conv) is O.FermionOperator, isinstance(conv, OFF),
+                        [(c, t) for t, c in hc.terms.items()], dict(conv.terms) == dict(op.terms), dict(f.terms) == dict(op.terms))
+
+            r = _out(wrap)
+            n_ev += 1
+            good = r[0] == "ok" and r[1][0] and r[1][1] and r[1][2] and r[1][4] and r[1][5]
+            if good:
+                want = fock.fermion_matrix(n, tl).conj().T
+                good = bool(np.allclose(fock.fermion_matrix(n, r[1][3]), want, atol=1e-12))
+            if not good:
+                ctx.witness("fermion-operator-wrapper", "FermionOperator.hermitian_conjugated / fermion_operator_from_openfermion_op: wrong type, "
+                            "terms changed, or the conjugate is not the adjoint on Fock space", {"operator": repr(tl)[:600]}, repr(r)[:300])
+    # operator_from_openfermion_op on hand-built QubitOperators
+    for _ in range(ctx.n(200, 3000)):
+        nq = rng.randint(1, 6)
+        qop = QubitOperator()
+        for _ in range(rng.randint(0, 4)):
+            qs = rng.sample(range(nq), rng.randint(0, nq))
+            if rng.random() < 0.5:
+                qs.sort(reverse=rng.random() < 0.5)
+            qop += QubitOperator(tuple((q, rng.choice("XYZ")) for q in qs), rng.choice(COEFS))
+        ref = [(complex(c), tuple(t)) for t, c in qop.terms.items()]
+        n_ev += 1
+        try:
+            got = qubit_terms(O.operator_from_openfermion_op(qop))
+        except Exception as e:  # noqa: BLE001
+            ctx.witness("conversion", f"operator_from_openfermion_op raises {exc_name(e)}", {"qubit_operator": str(qop)[:300]})
+            continue
+        for b in range(1 << nq):
+            c1, c2 = fock.qubit_column(got, b), fock.qubit_column(ref, b)
+            if any(abs(c1.get(k, 0) - c2.get(k, 0)) > 1e-12 for k in set(c1) | set(c2)):
+                ctx.witness("conversion", "operator_from_openfermion_op changes the operator", {"qubit_operator": str(qop)[:300], "basis_state": b},
+                            {"converted": repr(got)[:300]})
+                break
+    ctx.evaluations += n_ev
+    ctx.count("operator_helpers", "cases", n_ev)
+
+
+# ---------------------------------------------------------------------------
+# K5: a mapping given by hand-made number-operator images (subclassing the public base class): the guards of
+# `_inv_state_transformation_matrix` and general linear encodings, against the model
+# ---------------------------------------------------------------------------
+def custom_mapping(ops):
+    """instance-building class whose operator mapper returns ops[i] for the number operator of mode i"""
+    from quri_parts.chem.transforms import JordanWigner
+
+    T = _real()
+
+    class HandMade(JordanWigner, T.OpenFermionQubitMapping):
+        @property
+        def of_operator_mapper(self):
+            def mapper(op):
+                (key,) = [k for k in op.terms if k]
+                return ops[key[0][0]]
+
+            return mapper
+
+    return HandMade
+
+
+def k_custom(ctx: Ctx):
+    from quri_parts.core.operator import Operator, PauliLabel, SinglePauli
+
+    rng = ctx.rng
+    reqs, expect = [], []
+    P = {1: SinglePauli.X, 2: SinglePauli.Y, 3: SinglePauli.Z}
+
+    def label(ips):
+        return PauliLabel([(i, P[p]) for i, p in ips])
+
+    for _ in range(ctx.n(120, 1200)):
+        n = rng.randint(1, 7)
+        x = rng.random()
+        rows = rand_invertible(rng, n) if x < 0.65 else rand_rows(rng, n, n, rng.choice([0.3, 0.5]))
+        if rng.random() < 0.15 and n >= 2:  # the well-known encodings: parity / JW
+            rows = [[1 if j <= i else 0 for j in range(n)] for i in range(n)] if rng.random() < 0.5 else [[int(i == j) for j in range(n)] for i in range(n)]
+        spec = []  # per mode: list of (label as [(i,p)], coef)
+        for i in range(n):
+            spec.append([([(j, 3) for j in range(n) if rows[i][j]], rng.choice([1, -1, 1 + 0j, -1.0]))])
+        fault = None
+        if rng.random() < 0.3:
+            i = rng.randrange(n)
+            fault = rng.choice(["two-terms", "empty", "coef", "pauli", "index"])
+            if fault == "empty" and n == 1:
+                fault = "coef"  # the line protocol cannot tell [zero operator] from []
+            if fault == "two-terms":
+                spec[i] = [([], 0.5), ([(rng.randrange(n), 3)], -0.5)]
+            elif fault == "empty":
+                spec[i] = []
+            elif fault == "coef":
+                spec[i] = [(spec[i][0][0], rng.choice([2, 0.5, 1j, -1j, 0]))]
+            elif fault == "pauli":
+                j = rng.randrange(n)
+                spec[i] = [([(k, 3) for k in range(n) if rows[i][k] and k != j] + [(j, rng.choice([1, 2]))], spec[i][0][1])]
+            else:
+                spec[i] = [([(k, 3) for k in range(n) if rows[i][k]] + [(n + rng.randint(0, 2), 3)], spec[i][0][1])]
+        try:
+            ops = [Operator({label(ips): c for ips, c in terms}) for terms in spec]
+        except Exception as e:  # noqa: BLE001
+            raise InfraError(f"cannot build the hand-made operators: {e!r}")
+        nf = rng.choice([None, None, rng.randint(0, n + 1)])
+        sz2 = rng.choice([None, None, rng.randint(-2, 2)])
+        head = f"c13map jw {n} {opt(nf)} {opt(sz2)} | {enc_ops(ops)} | "
+        key = ("custom", n, enc_ops(ops), nf, sz2)
+        ctx.count("custom_mapping", fault or "valid")
+        guarded = fault in ("two-terms", "pauli") and not (nf is not None and nf > n)
+        try:
+            cls = custom_mapping(ops)
+            m = cls(n, nf, sz_of(sz2))
+            sm, im = m.state_mapper, m.inv_state_mapper
+        except Exception as e:  # noqa: BLE001
+            reqs.append(head)
+            expect.append(("err " + exc_name(e), [], key))
+            if guarded and exc_name(e) != "ValueError":
+                ctx.witness("mapping-guard", "a number operator mapped to several Pauli terms / to a non-Z action is not rejected with the "
+                            "documented ValueError", {"number_operator_images": [str(o) for o in ops], "n_spin_orbitals": n}, exc_name(e))
+            continue
+        if guarded:
+            ctx.witness("mapping-guard", "a number operator mapped to several Pauli terms / to a non-Z action is accepted "
+                        "(documented: ValueError) and a state mapper is built from it",
+                        {"number_operator_images": [str(o) for o in ops], "n_spin_orbitals": n, "fault": fault}, "constructor returned")
+        try:
+            nq = m.n_qubits
+            hdr = (f"ok nq={nq} inv={rows_of(m._inv_trans_mat)} signs={''.join('1' if s == -1 else '0' for s in m._signs)} "
+                   f"trans={rows_of(m._trans_mat)}")
+        except Exception as e:  # noqa: BLE001
+            reqs.append(head)
+            expect.append(("err attribute:" + exc_name(e), [], key))
+            continue
+        qs, rs = [], []
+        for idx in occupation_queries(rng, n, nf, sz2, n <= 5):
+            qs.append("s:" + ",".join(map(str, idx)))
+            rs.append(real_state(sm, idx, nq))
+        for b in (range(1 << nq) if n <= 5 else [rng.getrandbits(nq) for _ in range(32)]):
+            r = real_inv(im, b, nq)
+            if r is not None:
+                qs.append(f"i:{b}")
+                rs.append(r)
+        reqs.append(head + ";".join(qs))
+        expect.append((hdr, list(zip(qs, rs)), key))
+    resp = ctx.driver(reqs, entry=ENTRY)
+    for req, (hdr, qrs, key), r in zip(reqs, expect, resp):
+        ctx.traces += 1
+        inp = {"hand_made_number_operator_images": key[2], "n_spin_orbitals": key[1], "n_fermions": key[3], "two_sz": key[4]}
+        if r == "bad-request":
+            raise InfraError(f"driver rejected {req[:300]}")
+        mh, _, mq = r.partition(" | ")
+        ctx.case(("custom", key), nontrivial=True, sample=None)
+        if mh != hdr:
+            ctx.disagree("custom-mapping-constructor", inp, hdr, mh)
+            continue
+        mrs = mq.split(";") if mq else []
+        if len(mrs) != len(qrs):
+            raise InfraError(f"driver answered {len(mrs)} of {len(qrs)} queries")
+        for (q, real), model in zip(qrs, mrs):
+            ctx.traces += 1
+            ctx.case(("customq", key, q), nontrivial=True, sample=None)
+            if real != model:
+                ctx.disagree("custom-mapping-query", {**inp, "query": q}, real, model)
+
+
+# ---------------------------------------------------------------------------
+# K6: wide registers (beyond 32 / 64 spin orbitals): read-back, round trip and the three filters on images
+# ---------------------------------------------------------------------------
+def wide_occupations(rng, n, nf, sz2, k):
+    ups, downs = list(range(0, n, 2)), list(range(1, n, 2))
+    out = []
+    for _ in range(k):
+        if nf is None:
+            ne = rng.choice([0, 1, 2, 3, 5, n // 2, n - 1, n])
+            nup = min(len(ups), max(ne - len(downs), rng.randint(0, ne)))
+        else:
+            ne, nup = nf, (nf + sz2) // 2
+        occ = rng.sample(ups, nup) + rng.sample(downs, ne - nup)
+        if occ and nf is None and rng.random() < 0.5 and (n - 1) not in occ:  # touch the top orbital
+            occ[0] = n - 1
+        out.append(sorted(set(occ)))
+    return out
+
+
+def k_wide(ctx: Ctx):
+    from openfermion.ops import FermionOperator
+    from quri_parts.core.state import ComputationalBasisState
+
+    import quri_parts.openfermion.utils.post_selection_filters as F
+
+    rng = ctx.rng
+    t0 = time.time()
+    n_ev = 0
+    plan = []
+    for kind in ("jw", "bk"):
+        ns = [31, 32, 33, 63, 64, 65, 66, 70]
+        for n in (rng.sample(ns[:3], 1) + rng.sample(ns[3:], 2) if ctx.quick() else ns + [96, 127, 128, 129]):
+            plan.append((kind, n, None, None))
+    for n in ([34, rng.choice([64, 66])] if ctx.quick() else [32, 34, 62, 64, 66, 68, 100]):
+        cands = [(2, 0), (3, 1), (3, -1), (4, 0), (4, 2), (5, -1), (6, 0), (n - 2, 0), (n // 2, (n // 2) % 2)]
+        adm = set(fock.admissible_sectors(n))
+        for nf, sz2 in rng.sample([c for c in cands if c in adm], ctx.n(2, 5)):
+            plan.append(("scbk", n, nf, sz2))
+    for kind, n, nf, sz2 in plan:
+        inp = {"kind": kind, "n_spin_orbitals": n, "n_fermions": nf, "two_sz": sz2}
+        try:
+            m = factory(kind)(n, nf, sz_of(sz2))
+            sm, im, om, nq = m.state_mapper, m.inv_state_mapper, m.of_operator_mapper, m.n_qubits
+            numq = [qubit_terms(om(FermionOperator(((i, 1), (i, 0))))) for i in range(n)]
+        except Exception as e:  # noqa: BLE001
+            ctx.witness(f"construct:{kind}", f"constructing the {kind} mapping / mapping a number operator on a wide register raises {exc_name(e)}",
+                        inp, str(e)[:200])
+            continue
+        ctx.count("wide", f"{kind}:{n}")
+        seen = {}
+        for occ in wide_occupations(rng, n, nf, sz2, ctx.n(10, 40)):
+            n_ev += 1
+            try:
+                st = sm(occ)
+                b = st.bits
+                back = list(im(ComputationalBasisState(nq, bits=b)))
+            except Exception as e:  # noqa: BLE001
+                ctx.witness(f"state:{kind}", f"state mapper / inverse raises {exc_name(e)} on an admissible occupation (wide register)",
+                            {**inp, "occ": occ}, str(e)[:200])
+                break
+            if st.qubit_count != nq or not (0 <= b < (1 << nq)):
+                ctx.witness(f"state:{kind}", "state mapper returns a state outside the n_qubits register", {**inp, "occ": occ}, {"bits": b})
+                break
+            if sorted(back) != occ or len(back) != len(set(back)):
+                ctx.witness(f"inverse-mapper:{kind}", "inv_state_mapper(state_mapper(occ)) != occ", {**inp, "occ": occ}, {"bits": b, "back": back})
+                break
+            if seen.setdefault(b, occ) != occ:
+                ctx.witness(f"state:{kind}", "state mapper is not injective", {**inp, "occ": occ, "other": seen[b]}, {"bits": b})
+                break
+            bad = None
+            for i in range(n):
+                col = fock.qubit_column(numq[i], b)
+                if abs(col.get(b, 0) - (1 if i in occ else 0)) > 1e-12 or any(k != b and abs(a) > 1e-12 for k, a in col.items()):
+                    bad = i
+                    break
+            if bad is not None:
+                ctx.witness(f"readback:{kind}", "mapped number operator does not read back the occupation on the mapped state",
+                            {**inp, "mode": bad, "occ": occ}, {"bits": b, "value": str(fock.qubit_column(numq[bad], b).get(b, 0))})
+                break
+            # the filters on this image: sector of the state (accept), neighbouring sectors (reject)
+            ne, s2 = len(occ), fock.two_sz(fock.occ_of(occ))
+            probes = [(ne, s2, True), (ne, None, True), (ne + 1, None, False), (ne, s2 + 2, False), (max(ne - 1, 0), s2, ne == 0)]
+            if kind == "scbk":
+                probes = [(ne, s2, True)]
+            for pe, ps, want in probes:
+                n_ev += 1
+                if ps is not None and ps % 2 == 0 and rng.random() < 0.5:
+                    fsz = ps // 2  # an int where a float is annotated
+                else:
+                    fsz = sz_of(ps)
+                try:
+                    if kind == "jw":
+                        fn = F.create_jw_electron_number_post_selection_filter_fn(pe, fsz)
+                    elif kind == "bk":
+                        fn = F.create_bk_electron_number_post_selection_filter_fn(nq, pe, fsz)
+                    else:
+                        fn = F.create_scbk_electron_number_post_selection_filter_fn(nq, pe, fsz)
+                    got = bool(fn(b))
+                except Exception as e:  # noqa: BLE001
+                    got = "err " + exc_name(e)
+                if got != want:
+                    ctx.witness(f"filter:{kind}", "post-selection filter verdict on the image of a state differs from "
+                                "{the state has the requested electron number and spin} (wide register)",
+                                {**inp, "occ": occ, "bits": b, "filter_n_electrons": pe, "filter_two_sz": ps}, {"filter": got, "expected": want})
+                    break
+    ctx.evaluations += n_ev
+    ctx.extra["wide_registers"] = {"evaluations": n_ev, "mappings": len(plan), "seconds": round(time.time() - t0, 2)}
 
 
 # ---------------------------------------------------------------------------
@@ -860,7 +1601,11 @@ def run(ctx: Ctx, replay=None) -> int:
     ctx.rule = ("cases = (GF(2) operation, operands) | (mapping kind, n, sector) | (mapping, query) with query a state-mapper "
                 "occupation list, an inverse-mapper bitstring or a filter bitstring | (JW filter, n_e, 2sz) over all bitstrings "
                 "of the width; real result vs Lean model result compared as canonical strings (exceptions by class name); "
-                "distinct = distinct canonical keys; oracle validation (Fock space) of every sector counted in evaluations only")
+                "distinct = distinct canonical keys; hand-made linear encodings (subclass of the public base class, incl. the guards of "
+                "_inv_state_transformation_matrix) go through the same model; oracle validation (Fock space) of every sector — "
+                "FermionOperator / quri-parts wrapper / InteractionOperator / MajoranaOperator arguments, both operator-mapper entry "
+                "points, collection types of the occupied indices, wide registers (31…129 spin orbitals), the remaining "
+                "binary_field API, n_qubits bookkeeping, has_particle_number_symmetry — counted in evaluations only")
     ctx.trusted = TRUSTED
     ctx.assumptions = [
         "spin orbitals alternate up/down (even index = up); SCBK is claimed for even n ≥ 2 only",
@@ -893,6 +1638,12 @@ def run(ctx: Ctx, replay=None) -> int:
         k_gf2(ctx)
         k_small(ctx)
         k_mappings(ctx)
+        k_custom(ctx)
+    with ctx.timed("oracle_api"):
+        k_gf2_api(ctx)
+        k_sizes(ctx)
+        k_operator_helpers(ctx)
+        k_wide(ctx)
     with ctx.timed("oracle_validation"):
         broken = bool(ctx.failed_obligations or ctx.disagreements)
         validate(ctx, 3 if broken else 1)
